@@ -657,6 +657,17 @@ func ens_af_control(c *Conn, old_c Conn, ret0 int, ret1 error) bool {
 	return ghost_rd_at(c.br, h)&0x80 != 0 && n >= 0 && n <= 125
 }
 
+// ... and in the short form: 125 fits the 7-bit length field, so a control frame whose header announces an extended
+// length (126/127 in the 7-bit field, whatever the extended field then says) is not one a conformant sender produces
+// (5.2: the minimal number of bytes MUST be used) and is refused
+//@ ensures (*Conn).advanceFrame C14.control.short-form
+func ens_af_control_short(c *Conn, old_c Conn, ret0 int, ret1 error) bool {
+	if ret1 != nil || !(ret0 == PingMessage || ret0 == PongMessage) {
+		return true
+	}
+	return ghost_rd_at(c.br, spec_hdr(c, old_c)+1)&0x7f <= 125
+}
+
 // fragmentation (5.4): a data frame starts a message only when none is in progress, a continuation only when one is;
 // the final flag of the message follows FIN; control frames leave it alone
 //@ ensures (*Conn).advanceFrame C14.sequence
